@@ -41,8 +41,10 @@ _CFG_ACTIVE = None
 # the seeded kinetic-term change gives P 5e-2, widths 2.3e-3, offsets 4.6e-3
 TOLP_PROBE, TOLW_PROBE, TOLO_PROBE = 0.1, 2e-2, 1e-3
 FLOORS = {
-    "quick": {"distinct_nontrivial": 4, "mon": {"pairs_compared": 12, "solve_pairs": 4}},
-    "thorough": {"distinct_nontrivial": 80, "mon": {"pairs_compared": 200, "solve_pairs": 80}},
+    "quick": {"distinct_nontrivial": 4, "mon": {"pairs_compared": 12, "solve_pairs": 4,
+                                                "sibling_instances": 3}},
+    "thorough": {"distinct_nontrivial": 80, "mon": {"pairs_compared": 200, "solve_pairs": 80,
+                                                    "sibling_instances": 12}},
 }
 
 
@@ -91,6 +93,24 @@ def generate(tier, seed):
             # which would absorb any other divergence between the labellings
             c["cfg"] = {"pressRelErrTol": 1e-3, "maxIterations": 60}
         cases.append(c)
+    # out-of-equilibrium relabelling pairs, with the *other* labelling's model instance
+    # created (and kept alive) before each solve: instances of one model class must not
+    # share state (particle lists, mass functions)
+    rng4 = np.random.default_rng(8800 + seed)
+    for i in range(2 if tier == "quick" else 8):
+        spec = P.random_poly1(rng4, s=float(10 ** rng4.uniform(-1, 2)))
+        while spec["a"] < 3:
+            spec = P.random_poly1(rng4, s=spec["s"])
+        Tc_ = P.build_potential({**spec, "s": 1.0}).Tc()
+        spec["Tn_over_s"] = 1.0 + float(rng4.uniform(0.65, 0.85)) * (Tc_ - 1.0)
+        spec["particles"] = [{"name": "top", "coupling": float(rng4.uniform(0.2, 0.6)),
+                              "field": 0, "statistics": "Fermion", "dofs": 12}]
+        trs = [{"perm": [0], "signs": [float(rng4.choice([-1.0, 1.0]))],
+                "shift_in_vev": [float(rng4.uniform(0.5, 2) * rng4.choice([-1, 1]))]}
+               for _ in range(1 if tier == "quick" else 2)]
+        cases.append({"i": 1000 + i, "spec": spec, "transforms": trs, "siblings": True,
+                      "cfg": {"offEq": True, "kappa": float(rng4.choice([0.1, 0.3, 1.0])),
+                              "M": 25, "N": 5, "pressRelErrTol": 1e-2, "maxIterations": 40}})
     return cases
 
 
@@ -288,8 +308,25 @@ def run_case(case):
     if spec["family"] == "poly2" and "particles" not in spec:
         pass
     cfg = dict(CFG, **case.get("cfg", {}))
+    alive = []       # sibling model instances of the other labellings, kept alive on purpose
+
+    def siblings_of(skip):
+        def make():
+            from wgverif.checks import _manager as MG
+            vev_ = P.build_potential(spec).field_scale(spec["Tn_over_s"] * spec.get("s", 1.0)) \
+                / spec.get("s", 1.0)
+            for tr_ in ([{"perm": None}] + case["transforms"]):
+                if tr_ is skip:
+                    continue
+                sp_ = dict(spec)
+                if tr_.get("perm") is not None:
+                    sp_["perm"], sp_["signs"] = tr_["perm"], tr_["signs"]
+                    sp_["shift"] = [x * vev_ for x in tr_["shift_in_vev"]]
+                alive.append(MG.build(sp_, cfg, setup=False))
+                mon["sibling_instances"] = mon.get("sibling_instances", 0) + 1
+        return make if case.get("siblings") else None
     try:
-        ref = MT.pipeline(spec, cfg, solve=True)
+        ref = MT.pipeline(spec, cfg, solve=True, after_build=siblings_of("reference"))
         mon["pipelines"] += 1
     except Exception as exc:
         return {"key": key0, "cls": "reference-failed", "nontrivial": False,
@@ -302,7 +339,11 @@ def run_case(case):
         return {"key": key0, "cls": "inadmissible(P_trace)", "nontrivial": False,
                 "obs": {"why": ref["p_trace_why"], "spec": spec}, "viol": [], "mon": mon}
     mu = [x for x in ref.get("mu_ends", []) if np.isfinite(x)]
-    if mu and (max(mu) > 60 or min(mu) < 2):
+    me = ref.get("mu_ends", [np.nan] * 4)
+    # lower table ends: c_s^2 < 1/60 means the enthalpy all but vanishes there; upper ends
+    # next to a spinodal legitimately reach mu ~ 100 (c_s^2 -> 0 at the spinodal)
+    if mu and (max([x for x in (me[0], me[2]) if np.isfinite(x)] or [0]) > 60
+               or max(mu) > 300 or min(mu) < 2):
         return {"key": key0, "cls": "inadmissible(P_eos)", "nontrivial": False,
                 "obs": {"mu_ends": ref.get("mu_ends"), "spec": spec}, "viol": [], "mon": mon}
     vev = pot0.field_scale(ref["Tn"]) / spec.get("s", 1.0)      # shift is given per unit s
@@ -314,6 +355,8 @@ def run_case(case):
         # per-field variation scales follow the permutation; they are differences, so a
         # translation does not change them
         try:
+            # partner runs alone: if live siblings changed anything, the reference run (which
+            # had them) and this one differ
             oth = MT.pipeline(sp2, cfg, solve=True)
             mon["pipelines"] += 1
         except Exception as exc:
